@@ -526,4 +526,192 @@ theorem expsOfSection_unchanged {K : Kernel} (hK : K.Sound) (q : Quirks) {n : Na
 theorem rawKernel_sound : rawKernel.Sound :=
   ⟨fun _ _ => rfl, fun _ _ => rfl, fun _ _ => rfl⟩
 
+/-! ## the structure of `decompile`'s output -/
+
+/-- classical for the decompiler (passes the `ZB_GATES` test) -/
+def cl (q : Quirks) (g : AGate) : Bool := isZB q g.cls
+/-- barrier / no-op -/
+def np (g : AGate) : Bool := isNopClass g.cls
+
+/-- a run as the decompiler sees it: starts with a classical gate, contains only classical gates
+and nops (so it extends over the nops that follow its last classical gate) -/
+def Run (q : Quirks) (R : List AGate) : Prop :=
+  ∃ g R', R = g :: R' ∧ cl q g = true ∧ ∀ x ∈ R', cl q x = true ∨ np x = true
+
+/-- the reported end of the range of a run at offset `o`: one trailing nop is cut off -/
+def stopOf (o : Nat) (R : List AGate) : Nat :=
+  if (R.getLast?.map np).getD false then o + R.length - 1 else o + R.length
+
+structure SecOf (q : Quirks) (K : Kernel) (n : Nat) (s : Section) (o : Nat) (R : List AGate) : Prop where
+  start_eq : s.start = o
+  stop_eq : s.stop = stopOf o R
+  gates_eq : s.gates = R.filter (cl q)
+  exps_eq : expsOfSection q K n s.gates = .ok s.exps
+
+/-- `Decomp a W secs`: the gate list `W` (whose first gate has index `a` in the circuit) is
+`B₁ ++ R₁ ++ [sep₁] ++ B₂ ++ R₂ ++ [sep₂] ++ … ++ Bₖ ++ Rₖ (++ [sepₖ] ++ Bₖ₊₁)`, the `B`s without
+classical gates, the `R`s runs, the `sep`s neither classical nor nops, and `secs` are the `k`
+sections of the `k` runs, in order. -/
+inductive Decomp (q : Quirks) (K : Kernel) (n : Nat) : Nat → List AGate → List Section → Prop
+  | done (a : Nat) (B : List AGate) : (∀ g ∈ B, cl q g = false) → Decomp q K n a B []
+  | last (a : Nat) (B R : List AGate) (s : Section) : (∀ g ∈ B, cl q g = false) → Run q R →
+      SecOf q K n s (a + B.length) R → Decomp q K n a (B ++ R) [s]
+  | cons (a : Nat) (B R : List AGate) (sep : AGate) (W : List AGate) (s : Section)
+      (secs : List Section) : (∀ g ∈ B, cl q g = false) → Run q R → cl q sep = false →
+      np sep = false → SecOf q K n s (a + B.length) R →
+      Decomp q K n (a + B.length + R.length + 1) W secs →
+      Decomp q K n a (B ++ R ++ sep :: W) (s :: secs)
+
+theorem Decomp.skip {q : Quirks} {K : Kernel} {n a : Nat} {g : AGate} {W : List AGate}
+    {secs : List Section} (hg : cl q g = false) (h : Decomp q K n (a + 1) W secs) :
+    Decomp q K n a (g :: W) secs := by
+  have hB : ∀ B : List AGate, (∀ x ∈ B, cl q x = false) → ∀ x ∈ g :: B, cl q x = false := by
+    intro B hB x hx
+    cases hx with
+    | head => exact hg
+    | tail _ hx => exact hB x hx
+  cases h
+  · rename_i h1; exact Decomp.done a (g :: W) (hB W h1)
+  · rename_i B R s h1 h2 h3
+    have h3' : SecOf q K n s (a + (g :: B).length) R := by
+      have : a + (g :: B).length = a + 1 + B.length := by simp; omega
+      rw [this]; exact h3
+    exact Decomp.last a (g :: B) R s (hB B h1) h2 h3'
+  · rename_i B R sep W' s secs' h1 h2 h3 h4 h5 h6
+    have e : a + (g :: B).length = a + 1 + B.length := by simp; omega
+    have h5' : SecOf q K n s (a + (g :: B).length) R := by rw [e]; exact h5
+    have h6' : Decomp q K n (a + (g :: B).length + R.length + 1) W' secs' := by rw [e]; exact h6
+    exact Decomp.cons a (g :: B) R sep W' s secs' (hB B h1) h2 h3 h4 h5' h6'
+
+/-- `current_section_start_index` while the gates `pend` (from index `a`) are pending -/
+def startOf (a : Nat) : List AGate → Option Nat
+  | [] => none
+  | _ :: _ => some a
+
+theorem Run.snoc {q : Quirks} {R : List AGate} {g : AGate} (h : Run q R)
+    (hg : cl q g = true ∨ np g = true) : Run q (R ++ [g]) := by
+  obtain ⟨g0, R', rfl, h0, hR⟩ := h
+  refine ⟨g0, R' ++ [g], rfl, h0, ?_⟩
+  intro x hx
+  rcases List.mem_append.mp hx with hx | hx
+  · exact hR x hx
+  · simp only [List.mem_singleton] at hx; subst hx; exact hg
+
+theorem Run.filter_ne_nil {q : Quirks} {R : List AGate} (h : Run q R) :
+    (R.filter (cl q)).isEmpty = false := by
+  obtain ⟨g0, R', rfl, h0, _⟩ := h
+  simp [List.filter, h0]
+
+theorem Run.ne_nil {q : Quirks} {R : List AGate} (h : Run q R) : ∃ g R', R = g :: R' := by
+  obtain ⟨g0, R', rfl, _, _⟩ := h
+  exact ⟨g0, R', rfl⟩
+
+theorem flush_secOf {q : Quirks} {K : Kernel} {n a i : Nat} {pend : List AGate} {prev : Option AGate}
+    {e : Dict} (hrun : Run q pend) (hprev : prev = pend.getLast?) (hi : i = a + pend.length)
+    (he : expsOfSection q K n (pend.filter (cl q)) = .ok e) :
+    SecOf q K n ⟨pend.filter (cl q), e, (startOf a pend).getD 0,
+      if (prev.map (fun p => isNopClass p.cls)).getD false then i - 1 else i⟩ (a + ([] : List AGate).length) pend := by
+  obtain ⟨g0, R', hR⟩ := hrun.ne_nil
+  refine ⟨?_, ?_, rfl, he⟩
+  · subst hR; simp [startOf]
+  · subst hprev hi
+    simp only [stopOf, List.length_nil, Nat.add_zero]
+    rfl
+
+theorem go_decomp (q : Quirks) (K : Kernel) (n : Nat) (rest : List AGate) :
+    ∀ (a i : Nat) (pend : List AGate) (prev : Option AGate) (cur : List AGate) (start : Option Nat)
+      (secs : List Section),
+      (pend = [] ∨ (Run q pend ∧ prev = pend.getLast?)) →
+      i = a + pend.length → cur = pend.filter (cl q) → start = startOf a pend →
+      go q K n i prev cur start rest = .ok secs →
+      Decomp q K n a (pend ++ rest) secs := by
+  induction rest with
+  | nil =>
+    intro a i pend prev cur start secs hp hi hcur hstart h
+    simp only [go] at h
+    rcases hp with hp | ⟨hrun, hprev⟩
+    · subst hp; subst hcur
+      simp only [List.filter, List.isEmpty_nil, if_true] at h
+      cases h
+      exact Decomp.done a [] (by simp)
+    · subst hcur hstart
+      rw [hrun.filter_ne_nil] at h
+      simp only [Bool.false_eq_true, if_false] at h
+      split at h
+      · next e he =>
+        cases h
+        have := Decomp.last a [] pend _ (by simp) hrun (flush_secOf hrun hprev hi he)
+        simpa using this
+      · cases h
+  | cons g rest ih =>
+    intro a i pend prev cur start secs hp hi hcur hstart h
+    simp only [go] at h
+    by_cases hz : isZB q g.cls = true
+    · -- a classical gate joins the pending run
+      simp only [hz, if_true] at h
+      have hcl : cl q g = true := hz
+      have h' := ih a (i + 1) (pend ++ [g]) (some g) (cur ++ [g]) (some (start.getD i)) secs
+        (Or.inr ⟨by
+          rcases hp with hp | ⟨hrun, _⟩
+          · subst hp; exact ⟨g, [], rfl, hcl, by simp⟩
+          · exact hrun.snoc (Or.inl hcl), by simp⟩)
+        (by simp; omega) (by subst hcur; simp [List.filter_append, List.filter, hcl])
+        (by
+          rcases hp with hp | ⟨hrun, _⟩
+          · subst hp; subst hstart; subst hi; simp [startOf]
+          · obtain ⟨g0, R', hR⟩ := hrun.ne_nil
+            subst hR; subst hstart; simp [startOf]) h
+      simpa using h'
+    · have hncl : cl q g = false := by simpa [cl] using hz
+      simp only [hz, if_false] at h
+      by_cases hn : isNopClass g.cls = true
+      · simp only [hn, if_true] at h
+        rcases hp with hp | ⟨hrun, hprev⟩
+        · -- a nop outside a run is skipped
+          subst hp; subst hcur; subst hstart
+          have h' := ih (a + 1) (i + 1) [] (some g) [] none secs (Or.inl rfl)
+            (by simp at hi ⊢; omega) (by simp) (by simp [startOf]) (by simpa [startOf] using h)
+          exact Decomp.skip hncl (by simpa using h')
+        · -- a nop inside a run stays inside
+          have h' := ih a (i + 1) (pend ++ [g]) (some g) cur start secs
+            (Or.inr ⟨hrun.snoc (Or.inr hn), by simp⟩) (by simp; omega)
+            (by subst hcur; simp [List.filter_append, List.filter, hncl])
+            (by
+              obtain ⟨g0, R', hR⟩ := hrun.ne_nil
+              subst hR; subst hstart; simp [startOf]) h
+          simpa using h'
+      · simp only [hn, if_false] at h
+        rcases hp with hp | ⟨hrun, hprev⟩
+        · -- a separator outside a run
+          subst hp; subst hcur; subst hstart
+          simp only [List.filter, List.isEmpty_nil, if_true] at h
+          have h' := ih (a + 1) (i + 1) [] (some g) [] none secs (Or.inl rfl)
+            (by simp at hi ⊢; omega) (by simp) (by simp [startOf]) (by simpa [startOf] using h)
+          exact Decomp.skip hncl (by simpa using h')
+        · -- a separator ends the pending run: flush
+          subst hcur hstart
+          rw [hrun.filter_ne_nil] at h
+          simp only [Bool.false_eq_true, if_false] at h
+          split at h
+          · next e he =>
+            split at h
+            · next r hr =>
+              cases h
+              have h' := ih (i + 1) (i + 1) [] (some g) [] none r (Or.inl rfl) (by simp) (by simp)
+                (by simp [startOf]) hr
+              have hn' : np g = false := by simpa [np] using hn
+              have := Decomp.cons a [] pend g rest _ r (by simp) hrun hncl hn'
+                (flush_secOf hrun hprev hi he)
+                (by simpa [hi] using h')
+              simpa using this
+            · cases h
+          · cases h
+
+/-- the structure theorem for `decompile` -/
+theorem decompile_decomp (q : Quirks) (K : Kernel) (n : Nat) (gs : List AGate) (secs : List Section)
+    (h : decompile q K n gs = .ok secs) : Decomp q K n 0 gs secs := by
+  have := go_decomp q K n gs 0 0 [] none [] none secs (Or.inl rfl) (by simp) (by simp)
+    (by simp [startOf]) h
+  simpa using this
+
 end QV.Decompiler
